@@ -232,15 +232,26 @@ Definition pair_persistable T (C : list cls) (q : pair) : bool :=
 Definition pair_ok T C q : bool := pair_safe T C q && pair_live T C q && pair_persistable T C q.
 
 (* ------------------------------------------------------------------ semantics *)
-Record ent := { mem : fld -> N; sto : fld -> N; onf : bool }.
+(* [nrule]/[wsname]: H5Writer.fetch_handle returns the *project* node for anything whose name equals the project's
+   name; an entity that carries that name is written elsewhere (the table says whether the rule is in the source). *)
+Record ent := { mem : fld -> N; sto : fld -> N; onf : bool; nrule : bool; wsname : N }.
+
+Definition NAME : fld := 0%N.                       (* the extractor gives the field "_name" the identifier 0 *)
+
+(* the persistence call reaches the entity's own node *)
+Definition handle_ok (e : ent) : bool := negb (nrule e && N.eqb (mem e NAME) (wsname e)).
 
 Definition upd (m : fld -> N) (f : fld) (v : N) : fld -> N := fun g => if N.eqb g f then v else m g.
 
 Definition step (e : ent) (x : fe) (v : N) : ent :=
   match x with
-  | FStore f => {| mem := upd (mem e) f v; sto := sto e; onf := onf e |}
-  | FPersist fs => if onf e then {| mem := mem e; sto := fun g => if memN g fs then mem e g else sto e g; onf := true |} else e
-  | FPersistAll => if onf e then {| mem := mem e; sto := mem e; onf := true |} else e
+  | FStore f => {| mem := upd (mem e) f v; sto := sto e; onf := onf e; nrule := nrule e; wsname := wsname e |}
+  | FPersist fs =>
+      if onf e && handle_ok e
+      then {| mem := mem e; sto := fun g => if memN g fs then mem e g else sto e g; onf := true; nrule := nrule e; wsname := wsname e |}
+      else e
+  | FPersistAll =>
+      if onf e && handle_ok e then {| mem := mem e; sto := mem e; onf := true; nrule := nrule e; wsname := wsname e |} else e
   | FBad => e
   | FPersistIf _ _ => e
   end.
@@ -270,7 +281,15 @@ Fixpoint last_store (f : fld) (p : list fe) (k : nat) : option nat :=
   end.
 
 (* ------------------------------------------------------------------ executable witnesses of loss *)
-Definition e0 : ent := {| mem := fun _ => 0%N; sto := fun _ => 0%N; onf := true |}.
+Definition e0 : ent := {| mem := fun _ => 0%N; sto := fun _ => 0%N; onf := true; nrule := false; wsname := 0%N |}.
+
+(* the values stored never collide with the project's name (hypothesis of the soundness theorems) *)
+Definition name_safe (e : ent) (vals : nat -> N) : Prop :=
+  nrule e = false \/ (mem e NAME <> wsname e /\ forall k, vals k <> wsname e).
+
+(* witness for the name rule: an on-file, in-sync entity in a project called 7, and every stored value is 7 *)
+Definition e_ws : ent := {| mem := fun _ => 0%N; sto := fun _ => 0%N; onf := true; nrule := true; wsname := 7%N |}.
+Definition vals_ws (_ : nat) : N := 7%N.
 Definition vals0 (k : nat) : N := N.of_nat (S k).
 
 (* unroll every loop 0 times / once with each body: enough to exhibit a loss *)
@@ -319,8 +338,8 @@ Definition must_raise T C q : bool :=
 Definition seq_paths T C (qs : list pair) : list (list fe) :=
   flat_map (fun ps => unroll01 (resolve [] (List.concat ps))) (combos (map (pair_paths_raw T C true) qs)).
 
-Definition attr_lost_on T (C : list cls) (q : pair) (b : pair) (p : list fe) : bool :=
-  existsb (fun f => memN f (lost_fields (pair_watch C q) p)) (q_own b)
+Definition attr_lost_on T (C : list cls) (q : pair) (b : pair) (narrow : bool) (p : list fe) : bool :=
+  existsb (fun f => memN f (lost_fields (pair_watch C q) p)) (if narrow then pair_backing T C b else q_own b)
   || (negb (pair_persistable T C b) && existsb (fun e => match e with FStore f => memN f (pair_backing T C b) | _ => false end) p).
 
 Definition check_case (T : list func) (C : list cls) (P : list pair)
@@ -344,12 +363,27 @@ Definition check_case (T : list func) (C : list cls) (P : list pair)
             | None => false
             | Some b =>
                 let obs := existsb (String.eqb bn) lost in
-                let may := existsb (attr_lost_on T C q0 b) paths in
-                let must := forallb (attr_lost_on T C q0 b) paths in
+                let may := existsb (attr_lost_on T C q0 b false) paths in
+                let must := forallb (attr_lost_on T C q0 b true) paths in
                 let assigned := existsb (fun s => String.eqb (fst s) bn) steps in
                 (* "must" only for the assigned attributes: two attributes kept in one field (a metadata dictionary)
                    are not distinguished by the model *)
                 (implb obs may) && (implb (assigned && must) obs)
             end) snap
         end
+  end.
+
+(* assigning the project's own name: with the fetch_handle rule in the source every non-None path of the name setter
+   must lose the name (and everything assigned afterwards); without the rule nothing is lost *)
+Definition check_wsname (T : list func) (C : list cls) (P : list pair) (rule : bool) (cn : string) (observed_lost : bool) : bool :=
+  match find_pair P cn "name" with
+  | None => false
+  | Some q =>
+      let e := {| mem := fun _ => 0%N; sto := fun _ => 0%N; onf := true; nrule := rule; wsname := 7%N |} in
+      let paths := flat_map unroll01 (pair_paths T C true q) in
+      let lost p := negb (N.eqb (mem (run p 0 vals_ws e) NAME) (sto (run p 0 vals_ws e) NAME)) in
+      match paths with
+      | [] => false
+      | _ => if observed_lost then forallb lost paths || negb (pair_ok T C q) else negb (existsb lost paths)
+      end
   end.
